@@ -1735,11 +1735,23 @@ class Compiler:
         else:
             render = "render_%s" % mangle(node.name)
         token_reset = template("__token = None")
-        return token_reset + template(
+        return token_reset + self._call_macro(template(
             "f(__stream, econtext.copy(), rcontext, "
             "__i18n_domain, __i18n_context, target_language)",
-            f=render) + \
-            template("econtext.update(rcontext)")
+            f=render))
+
+    def _call_macro(self, call):
+        # The macro works on a copy of the variables; the global
+        # definitions it made are carried over.  A local variable that
+        # hides a global which the macro left alone stays as it is.
+        rscope = identifier("__rscope", id(call))
+        return template(
+            "rscope = dict.copy(rcontext)", rscope=rscope
+        ) + call + template(
+            "for __k, __v in rcontext.items():\n"
+            "    if rscope.get(__k, __marker) is not __v: econtext[__k] = __v",
+            rscope=rscope
+        )
 
     def visit_DefineSlot(self, node):
         name = "__slot_%s" % mangle(node.name)
@@ -1888,11 +1900,10 @@ class Compiler:
             assignment +
             [TokenRef(node.expression.value)] +
             template("__m = __macro.include") +
-            template(
+            self._call_macro(template(
                 "__m(__stream, econtext.copy(), "
                 "rcontext, __i18n_domain, __i18n_context, target_language)"
-            ) +
-            template("econtext.update(rcontext)") +
+            )) +
             cleanup
         )
 
